@@ -281,7 +281,12 @@ def generate(rng, cfg):
         for _ in range(rng.randint(1, 2)):
             name = rng.choice(["DTSTART"] if cls == "Journal" else ["DTSTART", "END", "DURATION"])
             extra.append([name, rng.choice(DURS) if name == "DURATION" else _val(rng, aware)])
-    trace = [[0, "new", {"cls": cls, "how": how, "props": props, "extra": extra}]]
+    bad = []
+    if how == "parse" and cls == "Event" and rng.random() < 0.2:
+        for name in rng.sample(["DTSTART", "END", "DURATION"], rng.randint(1, 2)):
+            if name not in props and not any(x[0] == name for x in extra):
+                bad.append([name, rng.choice(["20240506T1100", "1D", "garbage", "2024-05-06", ""])])
+    trace = [[0, "new", {"cls": cls, "how": how, "props": props, "extra": extra, "bad": bad}]]
     m = Model(cls)
     m.provider = provider
     for k, v in props.items():
@@ -362,9 +367,11 @@ def abstract_sig(run):
 # ---------------------------------------------------------------------------
 # execution
 
-def _text_for(cls, props, extra=()):
+def _text_for(cls, props, extra=(), bad=()):
     kind = {"Event": "VEVENT", "Todo": "VTODO", "Journal": "VJOURNAL"}[cls]
     lines = [f"BEGIN:{kind}"]
+    # lines of the three properties that cannot be decoded: a VEVENT drops them (and records that it did)
+    lines += [f"{endname(cls) if n == 'END' else n}:{text}" for n, text in bad]
     for name, v in list(props.items()) + [tuple(x) for x in extra]:
         pname = endname(cls) if name == "END" else name
         lines.append(_prop_line(pname, v))
@@ -444,7 +451,9 @@ def execute(run, res):
             if m.provider == "pytz":
                 res.probe("pytz_provider_selected")
             if a["how"] == "parse":
-                text = _text_for(cls, a["props"], a.get("extra", ()))
+                text = _text_for(cls, a["props"], a.get("extra", ()), a.get("bad", ()))
+                if a.get("bad"):
+                    res.probe("parsed_with_dropped_lines")
                 try:
                     comp = klass.from_ical(text)
                 except Exception as e:
